@@ -177,13 +177,18 @@ def q_cases(draw, shapes=Q_SHAPES, max_n=4):
                "2d-bi": ["spectrum"], "aligned": ["event"]}[shape]
     bi_dims = ["spectrum"] if shape == "2d-bi" else []
     lam = [_stored_lam(draw(logfloat(-2, 2)), lam_unit) for _ in range(n_lam)]
+    lam_dtype = "float64"
+    if draw(st.sampled_from([False, False, False, True])):
+        # whole numbers of the wavelength unit in an integer variable (seeded/C08-s3)
+        lam = [float(draw(st.integers(1, 100))) for _ in range(n_lam)]
+        lam_dtype = "int64"
     n_bi = n_bf if bi_dims else 1
     dirs_i = [draw(unit_vector()) for _ in range(n_bi)]
     bi = [draw(beam(d)) for d in dirs_i]
     bf = [draw(beam(draw(scattered_dir(dirs_i[j if bi_dims else 0])))) for j in range(n_bf)]
     return {
         "shape": shape,
-        "lam": {"unit": lam_unit, "dims": lam_dims, "values": lam},
+        "lam": {"unit": lam_unit, "dims": lam_dims, "values": lam, "dtype": lam_dtype},
         "bi": {"unit": draw(st.sampled_from(BEAM_UNITS)), "dims": bi_dims, "values": bi},
         "bf": {"unit": draw(st.sampled_from(BEAM_UNITS)), "dims": bf_dims, "values": bf},
     }
@@ -191,6 +196,8 @@ def q_cases(draw, shapes=Q_SHAPES, max_n=4):
 
 def _q_inputs(case, bi=None, bf=None):
     lam = _floats_var(case["lam"]["dims"], case["lam"]["values"], case["lam"]["unit"])
+    if case["lam"].get("dtype") == "int64":
+        lam = lam.astype("int64")
     vi = _vecs_var(case["bi"]["dims"], bi if bi is not None else case["bi"]["values"], case["bi"]["unit"])
     vf = _vecs_var(case["bf"]["dims"], bf if bf is not None else case["bf"]["values"], case["bf"]["unit"])
     return lam, vi, vf
@@ -222,7 +229,7 @@ def _q_rows(case, bi=None, bf=None):
 
 
 def _q_labels(case, rows):
-    labs = ["shape:" + case["shape"], "lam:" + case["lam"]["unit"],
+    labs = ["shape:" + case["shape"], "lam:" + case["lam"]["unit"], "lam_dtype:" + case["lam"].get("dtype", "float64"),
             "bi:" + case["bi"]["unit"], "bf:" + case["bf"]["unit"]]
     nonzero = False
     for _, a in rows:
@@ -944,6 +951,34 @@ def check_graph(case):
 
 # ============================================================================ registration
 
+@st.composite
+def hkl_sequence_cases(draw):
+    # one layout for the whole sequence: the calls then allocate their operands in the same pattern, which
+    # is what makes CPython hand out the same object addresses again
+    mode = draw(st.sampled_from(["scalar", "scalar", "array"]))
+    return {"cases": [draw(hkl_cases(modes=(mode,))) for _ in range(draw(st.integers(4, 8)))]}
+
+
+def check_hkl_sequence(case):
+    """Several hkl conversions with *different* fresh matrices back to back in one process, the operand
+    objects of each call released before the next: a result must not depend on matrices used in earlier
+    calls (e.g. through a memo keyed on object identity; seeded/C08-s4)."""
+    import gc
+
+    labs = [f"ncalls:{len(case['cases'])}"]
+    nt = False
+    for k, c in enumerate(case["cases"]):
+        try:
+            sub_labs, sub_nt = check_hkl(c)
+        except Violation as v:
+            raise Violation(v.kind, f"call {k + 1} of {len(case['cases'])} in one process: {v.message}", v.details) from None
+        nt = nt or sub_nt
+        if k == 0:
+            labs += [x for x in sub_labs if x.startswith("mode:")][:1]
+        pass
+    return labs, nt
+
+
 FACETS = [
     Facet("q_formula", check_q_formula, strategy=lambda tier: q_cases(),
           quick=(2, 400), thorough=(16, 2000), min_nontrivial=0.5,
@@ -961,6 +996,9 @@ FACETS = [
           quick=(4, 300), thorough=(16, 1600), min_nontrivial=0.5,
           doc="hkl_vec_from_Q_vec(Q, ub_matrix_from_u_and_b(U,B), R): forward error and residual of "
               "2 pi R U B hkl = Q within eps*(128 cond + cond^2)"),
+    Facet("hkl_sequence", check_hkl_sequence, strategy=lambda tier: hkl_sequence_cases(),
+          quick=(2, 100), thorough=(16, 600), min_nontrivial=0.3,
+          doc="4..8 hkl conversions with different fresh matrices back to back (no dependence on earlier calls)"),
     Facet("ub_product", check_ub, strategy=lambda tier: ub_cases(),
           quick=(2, 300), thorough=(16, 1200), min_nontrivial=0.5,
           doc="ub_matrix_from_u_and_b = U.B entrywise vs mpmath"),
